@@ -122,6 +122,13 @@ class St:
         dead = [q for q, o in self.ali.items() if _ext(p, q) or _ext(p, o) or (alt and (q.startswith(alt) or o.startswith(alt)))]
         for q in dead:
             del self.ali[q]
+        for q, f in [(q, f) for q, f in self.vs.items() if f[0] == 'rel']:
+            r = frozenset(x for x in f[1] if not (_ext(p, x) or (alt and x.startswith(alt))))
+            if len(r) != len(f[1]):
+                if r:
+                    self.vs[q] = ('rel', r)
+                else:
+                    del self.vs[q]
         if self.pc:
             dead = [k for k, (t, ps) in self.pc.items() if any(_ext(p, q) or (alt and q.startswith(alt)) for q in ps)]
             for k in dead:
@@ -207,6 +214,12 @@ def join_states(sts):
 
 
 def _vs_union(a, b):
+    if a[0] == 'rel' or b[0] == 'rel':
+        # relational bounds (`x#lt` / `x#le`: x is below each of these paths): what holds on both sides
+        if a[0] != b[0]:
+            return None
+        c = a[1] & b[1]
+        return ('rel', c) if c else None
     if a[0] == 'in' and b[0] == 'in':
         return ('in', a[1] | b[1])
     if a[0] == 'notin' and b[0] == 'notin':
@@ -295,6 +308,7 @@ class World:
             for en, names in u.enum_types.items():
                 self.enum_universe.setdefault(en, frozenset(names))
         self._scan_gwrites()
+        self._scan_len_specs()
         self.recursive = self._recursive_functions()
         self.pure = self._pure_functions()
         # calls whose reaching states are kept for the rules: diagnostics, assertions, constructors, size dispatchers
@@ -447,6 +461,58 @@ class World:
             return self.units[un]
         return None
 
+    def _scan_len_specs(self):
+        """pointer fields of records whose storage is allocated with an element count that is itself reachable from the owner:
+        `X->F = calloc(X->H, ..)` or `X->G = Y; X->F = calloc(Y->H, ..)` (Y never assigned) gives len(X->F) == X->H / X->G->H.
+        len_specs: (record, field) -> set of suffixes (None for an allocation site whose count is not such a path); len_names: the
+        last components of the suffixes (fields that hold an element count)"""
+        self.len_specs = {}
+        self.len_names = set()
+        for un, u in self.units.items():
+            for f, fd in u.functions.items():
+                links, writes, sites = {}, set(), []
+                for n in fd.walk():
+                    if n.kind == 'UnaryOperator' and n.opcode in ('++', '--', '&'):
+                        t = n.inner[0].strip()
+                        if t.kind == 'DeclRefExpr':
+                            writes.add(t.ref_id)
+                    if not (n.kind == 'BinaryOperator' and n.opcode == '='):
+                        if n.kind == 'CompoundAssignOperator':
+                            t = n.inner[0].strip()
+                            if t.kind == 'DeclRefExpr':
+                                writes.add(t.ref_id)
+                        continue
+                    l = n.inner[0].strip()
+                    r = n.inner[1].strip_all()
+                    if l.kind == 'DeclRefExpr':
+                        writes.add(l.ref_id)
+                        continue
+                    if l.kind != 'MemberExpr' or not l.d.get('isArrow'):
+                        continue
+                    b = l.inner[0].strip()
+                    if b.kind != 'DeclRefExpr' or b.ref_kind not in ('VarDecl', 'ParmVarDecl'):
+                        continue
+                    if r.kind == 'DeclRefExpr' and r.ref_kind in ('VarDecl', 'ParmVarDecl'):
+                        links.setdefault((b.ref_id, r.ref_id), set()).add(l.name)
+                    elif r.kind == 'CallExpr' and r.callee() in ('calloc',) and is_ptr_type(l.type) and len(r.args()) == 2:
+                        sites.append((l, b, r.args()[0].strip_all()))
+                for l, b, cnt in sites:
+                    rec = rec_of(pointee(b.type or ''))
+                    if rec is None:
+                        continue
+                    suf = None
+                    if cnt.kind == 'MemberExpr' and cnt.d.get('isArrow'):
+                        y = cnt.inner[0].strip()
+                        if y.kind == 'DeclRefExpr' and y.ref_kind in ('VarDecl', 'ParmVarDecl'):
+                            if y.ref_id == b.ref_id:
+                                suf = '->' + cnt.name
+                            elif y.ref_id not in writes and len(links.get((b.ref_id, y.ref_id), ())) == 1:
+                                suf = '->%s->%s' % (list(links[(b.ref_id, y.ref_id)])[0], cnt.name)
+                    self.len_specs.setdefault((rec, l.name), set()).add(suf)
+                    if suf:
+                        self.len_names.add(suf.rsplit('->', 1)[1])
+        self.len_specs = {k: v for k, v in self.len_specs.items() if any(v)}
+
     def _scan_gwrites(self):
         for un, u in self.units.items():
             for f, fd in u.functions.items():
@@ -515,6 +581,7 @@ class Engine:
         self.zero_args = {}    # (callee, i) -> src: may-be-zero input values handed on unchecked
         self.fstores = []      # (record, field, class, src, node): stores of integer values into record fields
         self.idxs = {}         # subscript node id -> dict: host array subscripts whose index is a value of the input held in a variable (lower / upper bound known on every path?)
+        self.lidx = {}         # subscript node id -> dict: subscripts of an array field whose element count is a path from its owner (W.len_specs): is the index known to be below it?
         self.evlocals = {}     # local (declared with an initializer, never assigned again) -> key of the evaluator call it holds
         self.ev_black = set()
         self.flag_stores = []  # (record, boolean field, constant stored | None, {suffix->kind: kinds known on the owner at the store})
@@ -896,6 +963,8 @@ class Engine:
                 if not addr:
                     self.check_deref(s, bv, e, '[]')
                     self.note_index(s, e, iv)
+                    if self.W.len_specs:
+                        self.note_len_index(s, e, bv, iv)
                 base = bv.path if bv.path is not None else bv.addr_of
                 if base is not None and iv.const is not None:
                     if bv.path is not None:
@@ -1158,6 +1227,122 @@ class Engine:
         self.idxs[node.id] = {'node': node, 'lb': lb, 'ub': ub, 'src': iv.src, 'path': iv.path, 'alias': S.ali.get(iv.path) if iv.path else None,
                               'ctx': self.context(S) if old is None else old['ctx']}
 
+    # ---- relational upper bounds (index below the element count of the array) ------------------------------
+    def canon_path(self, S, q):
+        """replace the longest prefix of q that is a plain copy of another path (S.ali) by that path"""
+        if not S.ali:
+            return q
+        for i in [len(q)] + [i for i in range(len(q) - 1, 0, -1) if q[i] in '-.[']:
+            o = S.ali.get(q[:i])
+            if o is not None:
+                return o + q[i:]
+        return q
+
+    def rel_sets(self, S, q):
+        """(paths q is known to be < , paths q is known to be <=)"""
+        lt, le = frozenset(), frozenset()
+        for q2 in (q, S.ali.get(q) if q else None):
+            if q2 is None:
+                continue
+            f = S.vs.get(q2 + '#lt')
+            if f is not None and f[0] == 'rel':
+                lt |= f[1]
+            f = S.vs.get(q2 + '#le')
+            if f is not None and f[0] == 'rel':
+                le |= f[1]
+        return lt, le
+
+    def len_like(self, q):
+        return '->' in q and q.rsplit('->', 1)[1] in self.W.len_names
+
+    def add_rel(self, S, q, strict, bound):
+        k = q + ('#lt' if strict else '#le')
+        f = S.vs.get(k)
+        S.vs[k] = ('rel', (f[1] if f is not None and f[0] == 'rel' else frozenset()) | frozenset([bound]))
+
+    def note_rel(self, T, F, va, vb, na, nb, op):
+        """`va op vb` with both sides held in paths: remember the upper bound each outcome gives (only bounds that are an element count,
+        W.len_names, or that are themselves bounded: what the rule on array indices needs)"""
+        flip = {'<': '>', '>': '<', '<=': '>=', '>=': '<='}
+        for pv, cv, o, pn in ((va, vb, op, na), (vb, va, flip[op], nb)):
+            if pv.path is None or cv.path is None or cv.const is not None or not is_int_type(pn) or pv.path == cv.path:
+                continue
+            for st, strict in ((T, True if o == '<' else (False if o == '<=' else None)), (F, True if o == '>=' else (False if o == '>' else None))):
+                if strict is None:
+                    continue
+                b = self.canon_path(st, cv.path)
+                lt, le = self.rel_sets(st, cv.path)
+                if self.len_like(b) or self.len_like(cv.path) or lt or le:
+                    self.add_rel(st, pv.path, strict, b)
+
+    def rel_verdict(self, S, q, hit):
+        """is the value in path q known to be below a path that satisfies hit()?  'ok' strictly below, 'bad' the tightest bound known is `<=`, None nothing known"""
+        lt, le = self.rel_sets(S, q)
+        if any(hit(x) for x in lt):
+            return 'ok', None
+        for x in le:
+            l2, e2 = self.rel_sets(S, x)
+            if any(hit(y) for y in l2):
+                return 'ok', None
+        for x in lt:
+            l2, e2 = self.rel_sets(S, x)
+            if any(hit(y) for y in l2 | e2):
+                return 'ok', None
+        bad = [x for x in le if hit(x)]
+        via = None
+        if not bad:
+            for x in sorted(le):
+                l2, e2 = self.rel_sets(S, x)
+                b2 = [y for y in e2 if hit(y)]
+                if b2:
+                    bad, via = b2, x
+                    break
+        if bad:
+            return 'bad', (sorted(bad)[0], via)
+        return None, None
+
+    def note_len_index(self, S, node, bv, iv):
+        """a subscript of an array field whose element count is a path from its owner: relation of the index to that count in this state"""
+        b = node.inner[0]
+        while b.kind in TRANSPARENT or b.kind == 'ImplicitCastExpr':
+            b = b.inner[0]
+        if b.kind != 'MemberExpr' or not b.d.get('isArrow'):
+            return
+        rec = rec_of(pointee(b.inner[0].type or ''))
+        spec = self.W.len_specs.get((rec, b.name))
+        if not spec:
+            return
+        sufs = sorted(x for x in spec if x)
+        old = self.lidx.get(node.id)
+        if old is None:
+            old = self.lidx[node.id] = {'node': node, 'rec': rec, 'field': b.name, 'sufs': sufs, 'ok': 0, 'bad': None, 'unknown': 0, 'tier': None, 'ctx': self.context(S)}
+        q = iv.path if iv is not None else None
+        owner = bv.path[:-(len(b.name) + 2)] if (bv is not None and bv.path is not None and bv.path.endswith('->' + b.name)) else None
+        if q is None:
+            old['unknown'] += 1
+            return
+        verdict, how, tier = None, None, None
+        if owner is not None:
+            Ls = set(self.canon_path(S, owner + suf) for suf in sufs) | set(owner + suf for suf in sufs)
+            verdict, how = self.rel_verdict(S, q, lambda x: x in Ls)
+            tier = 1
+        if verdict is None:
+            names = set(suf.rsplit('->', 1)[1] for suf in sufs)
+            verdict, how = self.rel_verdict(S, q, lambda x: '->' in x and x.rsplit('->', 1)[1] in names)
+            tier = 2
+        if verdict == 'bad':
+            lt, le = self.rel_sets(S, q)
+            if lt:
+                verdict = None         # some other strict limit is known: whether it is at most the element count is not decided
+        if verdict == 'ok':
+            old['ok'] += 1
+            old['tier'] = max(old['tier'] or 0, tier)
+        elif verdict == 'bad':
+            if old['bad'] is None:
+                old['bad'] = {'bound': self.show(how[0]), 'via': self.show(how[1]) if how[1] else None, 'tier': tier, 'index': self.show(q)}
+        else:
+            old['unknown'] += 1
+
     def out_taints(self):
         """{parameter index: (src, lb, ub)} for pointer parameters through which, on every normal return, a value of the input has been stored"""
         out = {}
@@ -1169,6 +1354,7 @@ class Engine:
                 continue
             q = r + '[]'
             src, lb, ub, ok = None, True, True, True
+            LT = LE = None
             for c, S in self.ret_facts:
                 f = S.nul.get(q)
                 if f is None or f[0] not in ('N', 'NN', 'NULL') or f[1] is None or f[1][0] != 'zero':
@@ -1179,9 +1365,23 @@ class Engine:
                 ints = w is not None and w[0] == 'in' and w[1] and all(isinstance(x, int) for x in w[1])
                 lb = lb and ((q + '#lb') in S.vs or (ints and min(w[1]) >= 0))
                 ub = ub and ((q + '#ub') in S.vs or bool(ints))
+                # what the stored value is below on this return, relative to the (unassigned) parameters: `*out < param#k->len`
+                lt, le = self.rel_sets(S, q)
+                rl = frozenset(x for x in (self.param_rel(y) for y in lt) if x)
+                re_ = frozenset(x for x in (self.param_rel(y) for y in le) if x) | rl
+                LT = rl if LT is None else LT & rl
+                LE = re_ if LE is None else LE & re_
             if ok and src is not None:
-                out[i] = (src, lb, ub)
+                out[i] = (src, lb, ub, LT or frozenset(), (LE or frozenset()) - (LT or frozenset()))
         return out
+
+    def param_rel(self, path):
+        """(parameter index, suffix) of a path rooted at a parameter this function never assigns, else None"""
+        r = _root(path)
+        pid = r.split('@', 1)[1] if '@' in r else None
+        if pid in self.param_idx and r not in self.assigned_params and len(path) > len(r):
+            return (self.param_idx[pid], path[len(r):])
+        return None
 
     def note_fstore(self, S, lhs, v, node, p=None):
         """store of an integer value into a record field (for the rule on fields that are used as divisors; flags set at construction)"""
@@ -1391,6 +1591,10 @@ class Engine:
                             s.vs[v.addr_of + '#lb'] = ('in', frozenset([1]))
                         if ot[2]:
                             s.vs[v.addr_of + '#ub'] = ('in', frozenset([1]))
+                        for strict, rels in ((True, ot[3] if len(ot) > 3 else ()), (False, ot[4] if len(ot) > 4 else ())):
+                            for k, suf in rels:
+                                if k < len(vals) and vals[k].path is not None:
+                                    self.add_rel(s, v.addr_of, strict, self.canon_path(s, vals[k].path + suf))
             elif v.path is not None and (args[i].type or '').replace(' ', '').endswith('**'):
                 s.kill(v.path + '[]')          # a pointer handed on: the callee may store through it
                 s.nul[v.path + '[]'] = ('U', None)
@@ -1579,6 +1783,7 @@ class Engine:
                                     st.vs[pv.path + '#lb'] = ('in', frozenset([1]))
                                 if ub:
                                     st.vs[pv.path + '#ub'] = ('in', frozenset([1]))
+                        self.note_rel(s, f, va, vb, e.inner[0], e.inner[1], op)
                         T.append(s)
                         F.append(f)
                 return T, F
